@@ -664,6 +664,56 @@ func PlatformPackageState() []string {
 	return out
 }
 
+// LoadLookupOrder is the order in which platform.loadPlatformDefinition consults its sources, read
+// off the function body: "assets" for loadPlatformDefinitionFromAssets, "file-or-url" for
+// util.ResolveAtFileOrURL, in source order of the first call of each.
+func LoadLookupOrder() []string {
+	var out []string
+	seen := map[string]bool{}
+	for _, f := range ParseDir(filepath.Join(Repo, "platform")) {
+		for _, d := range f.Decls {
+			fd, ok := d.(*ast.FuncDecl)
+			if !ok || fd.Name.Name != "loadPlatformDefinition" || fd.Body == nil {
+				continue
+			}
+			type hit struct {
+				pos  int
+				name string
+			}
+			var hits []hit
+			ast.Inspect(fd.Body, func(n ast.Node) bool {
+				c, ok := n.(*ast.CallExpr)
+				if !ok {
+					return true
+				}
+				name := ""
+				switch fn := c.Fun.(type) {
+				case *ast.Ident:
+					if fn.Name == "loadPlatformDefinitionFromAssets" {
+						name = "assets"
+					}
+				case *ast.SelectorExpr:
+					if fn.Sel.Name == "ResolveAtFileOrURL" {
+						name = "file-or-url"
+					}
+				}
+				if name != "" {
+					hits = append(hits, hit{int(c.Pos()), name})
+				}
+				return true
+			})
+			sort.Slice(hits, func(i, j int) bool { return hits[i].pos < hits[j].pos })
+			for _, h := range hits {
+				if !seen[h.name] {
+					seen[h.name] = true
+					out = append(out, h.name)
+				}
+			}
+		}
+	}
+	return out
+}
+
 // ---- struct-tag agreement ----------------------------------------------------------------------
 
 // repoStructTags reads `yaml:"..."` tags of a struct type from the source.
@@ -1031,6 +1081,8 @@ func GenPlatforms() string {
 	mm := TagMismatches()
 	b.WriteString("/-- yaml struct tags on which platform.Definition / Platform / optionDefinition / network.PrivilegeLevel\n    differ from the translator's mirror structs (empty = the YAML below was decoded as the code decodes it) -/\n")
 	b.WriteString("def tagMismatches : List String := " + leanStrList(mm) + "\n")
+	b.WriteString("/-- the sources `loadPlatformDefinition` consults, in source order (go/ast) -/\n")
+	b.WriteString("def loadLookupOrder : List String := " + leanStrList(LoadLookupOrder()) + "\n")
 	b.WriteString("/-- package-level variables of package platform that can carry state from one load to the next\n    (map / slice / pointer / sync values, or assigned inside a function); go/ast over platform/*.go -/\n")
 	b.WriteString("def packageState : List String := " + leanStrList(PlatformPackageState()) + "\n\n")
 	b.WriteString("-- rune classes shared by the pattern terms\n")
